@@ -1,5 +1,8 @@
-"""C04 — see harness/shellprops.py (shared exploration of the connection-level properties)
-and harness/shellrun.py (oracle_c04)."""
+"""C04 — two levels.  Dispatch / pool / reply discipline under all interleavings: harness/shellprops.py
+(shared exploration of the connection-level properties) and harness/shellrun.py (oracle_c04).  Content of
+each handler (which adapter methods, which decoded values in which position, how returns / raises become
+the reply): harness/metahandlers.py against Model/MetaHandlers.v."""
+import metahandlers
 import shellprops
 
 PID = 'C04'
@@ -9,6 +12,9 @@ ASSUMPTIONS = shellprops.ASSUMPTIONS
 
 def run(ctx, res):
     shellprops.explore(ctx, res, PID)
+    n = metahandlers.explore(ctx, res, 40 if ctx.tier == 'quick' else 1500)
+    res.rule += ('; handler content: %d requests (14 post-init methods, structured argument values, per adapter call a right-typed / '
+                 'wrong-typed return or one of 24 exception classes) through the real server vs Model.MetaHandlers.handle_tokens' % n)
 
 
 def search(ctx, res):
